@@ -72,6 +72,9 @@ func (w *World) verifyFn(key string, opt Options) (res *FnResult) {
 		return
 	}
 	res.Mode = con.Mode
+	if con.Abstract {
+		return
+	}
 	var aliasFrom *ssa.Function
 	if con.SameAs != "" {
 		tcon := w.Contracts[con.SameAs]
